@@ -53,7 +53,7 @@ impl Property for C08 {
         "C08"
     }
     fn rule(&self) -> &'static str {
-        "proptest: retention in {0,1,2,3,5,7,8,15,16,17,31,32,64,100,2^63,u64::MAX-3,u64::MAX-1,u64::MAX}, 1-4 initial sets, in one case in seven 1-69 honest warm-up rotations first (so that windows of 16, 32, 64 sets are actually filled and crossed), history of <=9 (quick) / <=14 (thorough) rotation attempts (proving set = any installed set, bypass flag, operator authorisation), optionally with up to 99 days passing before a step (<= 300 in total), and with candidates that are already installed (must fail and must not age any set). After construction and after every step EVERY installed set (in histories of more than 12 sets: the newest and oldest two and every set within two epochs of the configured window edge or of 8, 16, 32, 64) is probed on both paths: validate_proof over a fresh data hash and approve_messages of a unique message (sets outside the window additionally with a batch of already approved messages). Oracle: honoured iff current_epoch - epoch(set) <= retention (validate_proof's flag true exactly for the newest set); a rotation attempt succeeds iff the proving set is the newest (no bypass) or within the window (bypass with operator authorisation). non-trivial = some probe lies exactly on the boundary (current - epoch in {retention, retention+1}); distinct by Debug hash"
+        "proptest: retention in {0,1,2,3,5,7,8,15,16,17,31,32,64,100,2^63,u64::MAX-3,u64::MAX-1,u64::MAX}, 1-4 initial sets, in one case in seven 1-69 honest warm-up rotations first (so that windows of 16, 32, 64 sets are actually filled and crossed), history of <=9 (quick) / <=14 (thorough) rotation attempts (proving set = any installed set, bypass flag, operator authorisation), optionally with up to 99 days passing before a step, and with the owner upgrading and migrating the gateway before some steps (retention and installed sets must be carried over), (<= 300 in total), and with candidates that are already installed (must fail and must not age any set). After construction and after every step EVERY installed set (in histories of more than 12 sets: the newest and oldest two and every set within two epochs of the configured window edge or of 8, 16, 32, 64) is probed on both paths: validate_proof over a fresh data hash and approve_messages of a unique message (sets outside the window additionally with a batch of already approved messages). Oracle: honoured iff current_epoch - epoch(set) <= retention (validate_proof's flag true exactly for the newest set); a rotation attempt succeeds iff the proving set is the newest (no bypass) or within the window (bypass with operator authorisation). non-trivial = some probe lies exactly on the boundary (current - epoch in {retention, retention+1}); distinct by Debug hash"
     }
     fn cases(&self, tier: Tier) -> u64 {
         tier.pick(3000, 40000)
@@ -164,6 +164,12 @@ impl Property for C08 {
             probe_all(&installed, &model, "after the warm-up rotations", cx)?;
         }
         for (k, st) in case.steps.iter().enumerate() {
+            if st.days_before % 7 == 3 {
+                // (derived from the existing field so that saved cases keep their format)
+                upgrade_and_migrate(&env, &gw.id).map_err(|e| format!("step {}: {}", k, e))?;
+                cx.label("upgrade_and_migration_in_history");
+                probe_all(&installed, &model, &format!("after the upgrade and migration before step {}", k), cx)?;
+            }
             if st.days_before > 0 && days_passed + st.days_before as u32 <= 300 {
                 days_passed += st.days_before as u32;
                 advance_ledgers(&env, st.days_before as u32 * 17280);
